@@ -5,9 +5,12 @@ Open Scope N_scope.
 
 Definition scope := list (str * value).
 
+(* The open scopes, innermost first.  A scope opened by a function call is
+   flagged: it is the outermost scope visible from inside that call (the
+   callers' locals are their own). *)
 Record env := mkEnv {
   globals : scope;
-  scopes : list scope      (* innermost first *)
+  scopes : list (bool * scope)
 }.
 
 Fixpoint assoc_get (name : str) (l : scope) : option value :=
@@ -22,10 +25,14 @@ Fixpoint assoc_set (name : str) (v : value) (l : scope) : scope :=
   | (n, x) :: l' => if str_eqb n name then (n, v) :: l' else (n, x) :: assoc_set name v l'
   end.
 
-Fixpoint local_get (name : str) (ss : list scope) : option value :=
+Fixpoint local_get (name : str) (ss : list (bool * scope)) : option value :=
   match ss with
   | [] => None
-  | s :: ss' => match assoc_get name s with Some v => Some v | None => local_get name ss' end
+  | (frame, s) :: ss' =>
+      match assoc_get name s with
+      | Some v => Some v
+      | None => if frame then None else local_get name ss'
+      end
   end.
 
 Definition env_get (e : env) (name : str) : option value :=
@@ -35,16 +42,17 @@ Definition env_get (e : env) (name : str) : option value :=
   end.
 
 (* update the nearest enclosing scope that already holds the name *)
-Fixpoint local_update (name : str) (v : value) (ss : list scope) : list scope :=
+Fixpoint local_update (name : str) (v : value) (ss : list (bool * scope)) : list (bool * scope) :=
   match ss with
   | [] => []
-  | s :: ss' => match assoc_get name s with
-                | Some _ => assoc_set name v s :: ss'
-                | None => s :: local_update name v ss'
-                end
+  | (frame, s) :: ss' =>
+      match assoc_get name s with
+      | Some _ => (frame, assoc_set name v s) :: ss'
+      | None => if frame then (frame, s) :: ss' else (frame, s) :: local_update name v ss'
+      end
   end.
 
-(* Set: a local of any enclosing scope is updated, everything else is global *)
+(* Set: a local of the running function (any of its open scopes) is updated, everything else is global *)
 Definition env_set (e : env) (name : str) (v : value) : env :=
   match local_get name (scopes e) with
   | Some _ => mkEnv (globals e) (local_update name v (scopes e))
@@ -55,10 +63,13 @@ Definition env_set (e : env) (name : str) (v : value) : env :=
 Definition env_declare (e : env) (name : str) (v : value) : env :=
   match scopes e with
   | [] => e
-  | s :: ss => mkEnv (globals e) (assoc_set name v s :: ss)
+  | (frame, s) :: ss => mkEnv (globals e) ((frame, assoc_set name v s) :: ss)
   end.
 
-Definition env_push (e : env) : env := mkEnv (globals e) ([] :: scopes e).
+(* a loop scope *)
+Definition env_push (e : env) : env := mkEnv (globals e) ((false, []) :: scopes e).
+(* the scope of a function call *)
+Definition env_push_frame (e : env) : env := mkEnv (globals e) ((true, []) :: scopes e).
 Definition env_pop (e : env) : option env :=
   match scopes e with
   | [] => None
